@@ -195,3 +195,47 @@ Proof.
   unfold if_shutdown in Es. minv Es. zb.
   match goal with Hb : (_ || _) = true |- _ => apply orb_true_iff in Hb; destruct Hb as [Hb|Hb]; [left; exact Hb|right; zb; assumption] end.
 Qed.
+
+(* ---------- a closed vAMM: no close and no liquidation goes through (transaction level) ---------- *)
+From MP.Proofs Require Import EngineGuards VammFacts MirrorFacts FlowFacts.
+
+Theorem closed_vamm_close_tx f w t v lim funds vm :
+  get_vamm w v = Ok vm -> v_open (vs vm) = false ->
+  step_f f w (OEngine t (EClosePosition v lim) funds) = (w, false).
+Proof.
+  intros Hv Hc. unfold step_f.
+  destruct (exec_op f w (OEngine t (EClosePosition v lim) funds)) as [w'|e] eqn:E; [|reflexivity]. exfalso.
+  cbn [exec_op] in E. revert E. generalize FUEL. intros fuel H.
+  destruct (attach_funds w t A_ENGINE funds) as [w0|] eqn:Ea; [|discriminate]. cbn [bind] in H.
+  cbn [engine_execute] in H.
+  destruct (e_close_position w0 t v lim) as [[w1 subs]|] eqn:Ec; [|discriminate]. cbn [bind fst snd] in H.
+  destruct (dispatch fuel f w1 0 A_ENGINE subs) as [[wf nf]|] eqn:Ed; [|discriminate].
+  assert (E3 : w_vamms w0 = w_vamms w) by (unfold attach_funds in Ea; destruct (funds =? 0); [inv_ok; auto|]; minv Ea; inv_ok; auto).
+  assert (E4 : w_vamms w1 = w_vamms w0).
+  { unfold e_close_position, internal_close_position in Ec. arm Ec; reflexivity. }
+  destruct (close_position_choice _ _ _ _ _ _ Ec) as (vm0 & over & _ & _ & _ & Hsub). cbv zeta in Hsub.
+  assert (Hm : exists d b l id, subs = [mkSub (MSwapOutput v d b l) id RAlways]).
+  { destruct (over && _); subst subs; unfold swap_output_msg; do 4 eexists; reflexivity. }
+  destruct Hm as (d & b & l & id & ->).
+  apply dispatch_single in Ed; [|reflexivity|reflexivity].
+  destruct Ed as (k & wa & ev & wb & sb & _ & Ex & _).
+  cbn [sm_msg] in Ex. apply exec_swap_output in Ex. destruct Ex as (vmx & vm' & qa & ba & Hz & Hsw & _ & _).
+  rewrite E4, E3 in Hz. unfold get_vamm in Hv. rewrite Hz in Hv. injection Hv as ->.
+  rewrite (swap_output_closed _ _ _ _ _ _ Hc) in Hsw. discriminate.
+Qed.
+
+Theorem closed_vamm_liquidate_tx f w s v t lim funds vm :
+  get_vamm w v = Ok vm -> v_open (vs vm) = false ->
+  step_f f w (OEngine s (ELiquidate v t lim) funds) = (w, false).
+Proof.
+  intros Hv Hc. unfold step_f.
+  destruct (exec_op f w (OEngine s (ELiquidate v t lim) funds)) as [w'|e] eqn:E; [|reflexivity]. exfalso.
+  cbn [exec_op] in E. revert E. generalize FUEL. intros fuel H.
+  destruct (attach_funds w s A_ENGINE funds) as [w0|] eqn:Ea; [|discriminate]. cbn [bind] in H.
+  cbn [engine_execute] in H.
+  destruct (e_liquidate w0 s v t lim) as [[w1 subs]|] eqn:Ec; [|discriminate].
+  assert (E3 : w_vamms w0 = w_vamms w) by (unfold attach_funds in Ea; destruct (funds =? 0); [inv_ok; auto|]; minv Ea; inv_ok; auto).
+  apply liquidate_requires_vamm in Ec. apply require_vamm_ok in Ec. destruct Ec as (_ & _ & vm0 & Hg & Ho).
+  unfold get_vamm in Hg, Hv. cbn [w_vamms set_eng] in Hg. rewrite E3 in Hg.
+  destruct (zfind v (w_vamms w)); [|discriminate]. inv_ok. congruence.
+Qed.
